@@ -11,9 +11,9 @@ import (
 
 // ---------------------------------------------------------------- C12
 
-// qualConst evaluates `pkg.Name` / `Name` against the constant environment of
+// digQualConst evaluates `pkg.Name` / `Name` against the constant environment of
 // the named package.
-func qualConst(envs map[string]*constEnv, dflt string, e ast.Expr) (string, bool) {
+func digQualConst(envs map[string]*constEnv, dflt string, e ast.Expr) (string, bool) {
 	switch x := e.(type) {
 	case *ast.SelectorExpr:
 		if id, ok := x.X.(*ast.Ident); ok {
@@ -37,9 +37,13 @@ func qualConst(envs map[string]*constEnv, dflt string, e ast.Expr) (string, bool
 	return "", false
 }
 
-// enumSwitch reads `switch tag { case A: lhs = B … }` or
+// digSpecialClauses, when set, receives (label value, body source) of switch
+// clauses that do not simply assign/return a constant.
+var digSpecialClauses *[][2]string
+
+// digEnumSwitch reads `switch tag { case A: lhs = B … }` or
 // `switch tag { case A: return B, nil … }` into (A, B) value pairs.
-func enumSwitch(what string, sw *ast.SwitchStmt, envs map[string]*constEnv,
+func digEnumSwitch(what string, sw *ast.SwitchStmt, envs map[string]*constEnv,
 	dflt string) (pairs [][2]string, defaultStmts []string) {
 
 	for _, c := range sw.Body.List {
@@ -64,17 +68,31 @@ func enumSwitch(what string, sw *ast.SwitchStmt, envs map[string]*constEnv,
 			}
 		}
 		if val == nil {
+			if digSpecialClauses != nil {
+				// a clause with its own control flow: reported as source
+				// text, not as a table row
+				var body []string
+				for _, s := range cc.Body {
+					body = append(body, digNodeString(s))
+				}
+				for _, l := range cc.List {
+					a, _ := digQualConst(envs, dflt, l)
+					*digSpecialClauses = append(*digSpecialClauses,
+						[2]string{a, strings.Join(body, "; ")})
+				}
+				continue
+			}
 			// a clause that only falls out of the switch (comment-only)
 			fail("%s: case %s assigns/returns nothing", what, digNodeString(cc.List[0]))
 			continue
 		}
-		b, ok := qualConst(envs, dflt, val)
+		b, ok := digQualConst(envs, dflt, val)
 		if !ok {
 			fail("%s: value %s not a constant", what, digNodeString(val))
 			continue
 		}
 		for _, l := range cc.List {
-			a, ok := qualConst(envs, dflt, l)
+			a, ok := digQualConst(envs, dflt, l)
 			if !ok {
 				fail("%s: label %s not a constant", what, digNodeString(l))
 				continue
@@ -85,7 +103,7 @@ func enumSwitch(what string, sw *ast.SwitchStmt, envs map[string]*constEnv,
 	return pairs, defaultStmts
 }
 
-func findSwitchByTag(body ast.Node, tag string) *ast.SwitchStmt {
+func digFindSwitchByTag(body ast.Node, tag string) *ast.SwitchStmt {
 	var res *ast.SwitchStmt
 	ast.Inspect(body, func(n ast.Node) bool {
 		if sw, ok := n.(*ast.SwitchStmt); ok && sw.Tag != nil && digNodeString(sw.Tag) == tag && res == nil {
@@ -96,7 +114,7 @@ func findSwitchByTag(body ast.Node, tag string) *ast.SwitchStmt {
 	return res
 }
 
-func leanPairs(ps [][2]string) string {
+func digLeanPairs(ps [][2]string) string {
 	var xs []string
 	for _, p := range ps {
 		xs = append(xs, fmt.Sprintf("(%s, %s)", p[0], p[1]))
@@ -104,7 +122,7 @@ func leanPairs(ps [][2]string) string {
 	return "[" + strings.Join(xs, ", ") + "]"
 }
 
-func leanStrPairs(ps [][2]string) string {
+func digLeanStrPairs(ps [][2]string) string {
 	var xs []string
 	for _, p := range ps {
 		xs = append(xs, fmt.Sprintf("(%q, %q)", p[0], p[1]))
@@ -112,7 +130,7 @@ func leanStrPairs(ps [][2]string) string {
 	return "[" + strings.Join(xs, ", ") + "]"
 }
 
-func funcBodyStrings(fd *ast.FuncDecl) []string {
+func digFuncBodyStrings(fd *ast.FuncDecl) []string {
 	var res []string
 	for _, s := range fd.Body.List {
 		res = append(res, digNodeString(s))
@@ -120,12 +138,12 @@ func funcBodyStrings(fd *ast.FuncDecl) []string {
 	return res
 }
 
-func genOrderDigestFacts() {
+func digGenOrderDigestFacts() {
 	files := pkgFiles("order")
-	te := newTypeEnv(files)
+	te := digNewTypeEnv(files)
 	ce := newConstEnv(files)
-	ask := extractDigestFn(files, te, ce, "order", "Ask.Digest")
-	bid := extractDigestFn(files, te, ce, "order", "Bid.Digest")
+	ask := digExtractDigestFn(files, te, ce, "order", "Ask.Digest")
+	bid := digExtractDigestFn(files, te, ce, "order", "Bid.Digest")
 	if ask == nil || bid == nil {
 		return
 	}
@@ -142,7 +160,7 @@ func genOrderDigestFacts() {
 	known["uint32(b.MinNodeTier)"] = true
 	known["uint64(b.SelfChanBalance)"] = true
 	known["b.SelfChanBalance"] = true
-	for _, f := range []*digestFn{ask, bid} {
+	for _, f := range []*digDigestFn{ask, bid} {
 		for _, c := range f.cases {
 			for _, a := range c.args {
 				if !known[a.expr] {
@@ -204,34 +222,39 @@ func genOrderDigestFacts() {
 	}
 	// later plain assignments to fields of the literals (details.X = …) would
 	// bypass the literal mapping: list them
-	var fieldAssigns [][2]string
+	var fieldAssigns, varAssigns [][2]string
 	ast.Inspect(so.Body, func(n ast.Node) bool {
 		if as, ok := n.(*ast.AssignStmt); ok && as.Tok == token.ASSIGN && len(as.Lhs) == 1 {
 			if sel, ok := as.Lhs[0].(*ast.SelectorExpr); ok {
 				fieldAssigns = append(fieldAssigns, [2]string{digNodeString(sel), digNodeString(as.Rhs[0])})
 			}
+			// re-assignment of a local after its definition (a local that
+			// feeds a literal may be changed between definition and use)
+			if id, ok := as.Lhs[0].(*ast.Ident); ok {
+				varAssigns = append(varAssigns, [2]string{id.Name, digNodeString(as.Rhs[0])})
+			}
 		}
 		return true
 	})
 
-	ctSw := findSwitchByTag(so.Body, "o.Details().ChannelType")
-	atSw := findSwitchByTag(so.Body, "o.Details().AuctionType")
+	ctSw := digFindSwitchByTag(so.Body, "o.Details().ChannelType")
+	atSw := digFindSwitchByTag(so.Body, "o.Details().AuctionType")
 	if ctSw == nil || atSw == nil {
 		fail("SubmitOrder: channel type / auction type switch not found")
 		return
 	}
-	ctPairs, ctDefault := enumSwitch("SubmitOrder channel type", ctSw, envs, "order")
-	atPairs, atDefault := enumSwitch("SubmitOrder auction type", atSw, envs, "order")
+	ctPairs, ctDefault := digEnumSwitch("SubmitOrder channel type", ctSw, envs, "order")
+	atPairs, atDefault := digEnumSwitch("SubmitOrder auction type", atSw, envs, "order")
 
 	mnt := findFunc(afiles, "MarshallNodeTier")
 	var ntPairs [][2]string
 	var ntDefault []string
 	if mnt == nil {
 		fail("auctioneer.MarshallNodeTier not found")
-	} else if sw := findSwitchByTag(mnt.Body, "nodeTier"); sw == nil {
+	} else if sw := digFindSwitchByTag(mnt.Body, "nodeTier"); sw == nil {
 		fail("MarshallNodeTier: switch not found")
 	} else {
-		ntPairs, ntDefault = enumSwitch("MarshallNodeTier", sw, envs, "order")
+		ntPairs, ntDefault = digEnumSwitch("MarshallNodeTier", sw, envs, "order")
 	}
 
 	// ---- order/rpc_parse.go: channel type switch of ParseRPCServerOrder (rpc -> order)
@@ -242,15 +265,44 @@ func genOrderDigestFacts() {
 	if pso == nil {
 		fail("order.ParseRPCServerOrder not found")
 	} else {
-		if sw := findSwitchByTag(pso.Body, "details.ChannelType"); sw == nil {
+		if sw := digFindSwitchByTag(pso.Body, "details.ChannelType"); sw == nil {
 			fail("ParseRPCServerOrder: channel type switch not found")
 		} else {
-			pctPairs, pctDefault = enumSwitch("ParseRPCServerOrder channel type", sw, envs, "order")
+			pctPairs, pctDefault = digEnumSwitch("ParseRPCServerOrder channel type", sw, envs, "order")
 		}
 		for _, s := range pso.Body.List {
 			if as, ok := s.(*ast.AssignStmt); ok && as.Tok == token.ASSIGN && len(as.Lhs) == 1 {
 				psoAssigns = append(psoAssigns, [2]string{digNodeString(as.Lhs[0]), digNodeString(as.Rhs[0])})
 			}
+		}
+	}
+	// ---- order/rpc_parse.go: ParseRPCOrder (the trader's order as built from the RPC request)
+	var poAssigns, poSpecial, poCtPairs [][2]string
+	var poGuards, poCtDefault []string
+	po := findFunc(files, "ParseRPCOrder")
+	if po == nil {
+		fail("order.ParseRPCOrder not found")
+	} else {
+		for _, st := range po.Body.List {
+			if as, ok := st.(*ast.AssignStmt); ok && as.Tok == token.ASSIGN && len(as.Lhs) == 1 {
+				poAssigns = append(poAssigns, [2]string{digNodeString(as.Lhs[0]), digNodeString(as.Rhs[0])})
+			}
+			// the tag-less guard switch on the min units match
+			if sw, ok := st.(*ast.SwitchStmt); ok && sw.Tag == nil {
+				for _, c := range sw.Body.List {
+					cc := c.(*ast.CaseClause)
+					for _, l := range cc.List {
+						poGuards = append(poGuards, digNodeString(l))
+					}
+				}
+			}
+		}
+		if sw := digFindSwitchByTag(po.Body, "details.ChannelType"); sw == nil {
+			fail("ParseRPCOrder: channel type switch not found")
+		} else {
+			digSpecialClauses = &poSpecial
+			poCtPairs, poCtDefault = digEnumSwitch("ParseRPCOrder channel type", sw, envs, "order")
+			digSpecialClauses = nil
 		}
 	}
 	toSat := findFunc(files, "SupplyUnit.ToSatoshis")
@@ -260,42 +312,54 @@ func genOrderDigestFacts() {
 		return
 	}
 
-	l := newLeanImporting("DigestFacts", "PoolModel.DigestTypes", "Ordered codec.WriteElements argument lists of "+
+	l := digNewLeanImporting("DigestFacts", "PoolModel.DigestTypes", "Ordered codec.WriteElements argument lists of "+
 		"order.Ask.Digest / order.Bid.Digest per version case; field mapping of the ServerOrder/ServerAsk/"+
 		"ServerBid literals in auctioneer.Client.SubmitOrder with the enum switches it uses; the inverse "+
 		"channel-type switch of order.ParseRPCServerOrder.")
-	l.p("namespace Pool.Gen")
-	emitDigestFn(l, "askDigest", ask)
-	emitDigestFn(l, "bidDigest", bid)
+	l.p("namespace Pool.Gen.C12")
+	digEmitDigestFn(l, "askDigest", ask)
+	digEmitDigestFn(l, "bidDigest", bid)
 	l.p("/-- (field, value expression) of the `&auctioneerrpc.ServerOrder{…}` literal in SubmitOrder -/")
-	l.p("def submitServerOrder : List (String × String) := %s", leanStrPairs(lits["auctioneerrpc.ServerOrder"]))
-	l.p("def submitServerAsk : List (String × String) := %s", leanStrPairs(lits["auctioneerrpc.ServerAsk"]))
-	l.p("def submitServerBid : List (String × String) := %s", leanStrPairs(lits["auctioneerrpc.ServerBid"]))
+	l.p("def submitServerOrder : List (String × String) := %s", digLeanStrPairs(lits["auctioneerrpc.ServerOrder"]))
+	l.p("def submitServerAsk : List (String × String) := %s", digLeanStrPairs(lits["auctioneerrpc.ServerAsk"]))
+	l.p("def submitServerBid : List (String × String) := %s", digLeanStrPairs(lits["auctioneerrpc.ServerBid"]))
 	l.p("/-- `name := expr` definitions inside SubmitOrder -/")
-	l.p("def submitLocals : List (String × String) := %s", leanStrPairs(locals))
+	l.p("def submitLocals : List (String × String) := %s", digLeanStrPairs(locals))
 	l.p("/-- `x.f = expr` assignments inside SubmitOrder (fields set after the literals) -/")
-	l.p("def submitFieldAssigns : List (String × String) := %s", leanStrPairs(fieldAssigns))
+	l.p("def submitFieldAssigns : List (String × String) := %s", digLeanStrPairs(fieldAssigns))
+	l.p("/-- `local = expr` re-assignments of locals inside SubmitOrder -/")
+	l.p("def submitVarAssigns : List (String × String) := %s", digLeanStrPairs(varAssigns))
 	l.p("/-- SubmitOrder: order.ChannelType value ↦ auctioneerrpc.OrderChannelType value -/")
-	l.p("def submitChannelType : List (Nat × Nat) := %s", leanPairs(ctPairs))
+	l.p("def submitChannelType : List (Nat × Nat) := %s", digLeanPairs(ctPairs))
 	l.p("def submitChannelTypeDefault : List String := %s", leanStrList(ctDefault))
 	l.p("/-- SubmitOrder: order.AuctionType value ↦ auctioneerrpc.AuctionType value (no default: zero value) -/")
-	l.p("def submitAuctionType : List (Nat × Nat) := %s", leanPairs(atPairs))
+	l.p("def submitAuctionType : List (Nat × Nat) := %s", digLeanPairs(atPairs))
 	l.p("def submitAuctionTypeDefault : List String := %s", leanStrList(atDefault))
 	l.p("/-- MarshallNodeTier: order.NodeTier value ↦ auctioneerrpc.NodeTier value -/")
-	l.p("def marshallNodeTier : List (Nat × Nat) := %s", leanPairs(ntPairs))
+	l.p("def marshallNodeTier : List (Nat × Nat) := %s", digLeanPairs(ntPairs))
 	l.p("def marshallNodeTierDefault : List String := %s", leanStrList(ntDefault))
 	l.p("/-- ParseRPCServerOrder: auctioneerrpc.OrderChannelType value ↦ order.ChannelType value -/")
-	l.p("def parseChannelType : List (Nat × Nat) := %s", leanPairs(pctPairs))
+	l.p("def parseChannelType : List (Nat × Nat) := %s", digLeanPairs(pctPairs))
 	l.p("def parseChannelTypeDefault : List String := %s", leanStrList(pctDefault))
 	l.p("/-- ParseRPCServerOrder: top-level `lhs = rhs` assignments -/")
-	l.p("def parseServerOrderAssigns : List (String × String) := %s", leanStrPairs(psoAssigns))
-	l.p("def supplyToSatoshis : List String := %s", leanStrList(funcBodyStrings(toSat)))
-	l.p("def supplyFromSats : List String := %s", leanStrList(funcBodyStrings(fromSat)))
-	l.p("def digestBaseSupplyUnit : Nat := %s", intConst(ce, "order", "BaseSupplyUnit"))
+	l.p("def parseServerOrderAssigns : List (String × String) := %s", digLeanStrPairs(psoAssigns))
+	l.p("/-- ParseRPCOrder: top-level `lhs = rhs` assignments -/")
+	l.p("def parseOrderAssigns : List (String × String) := %s", digLeanStrPairs(poAssigns))
+	l.p("/-- ParseRPCOrder: conditions of the tag-less guard switch (each returns an error) -/")
+	l.p("def parseOrderGuards : List String := %s", leanStrList(poGuards))
+	l.p("/-- ParseRPCOrder: auctioneerrpc.OrderChannelType value ↦ order.ChannelType value -/")
+	l.p("def parseOrderChannelType : List (Nat × Nat) := %s", digLeanPairs(poCtPairs))
+	l.p("/-- ParseRPCOrder: clauses of that switch with their own control flow (label value, source) -/")
+	l.p("def parseOrderChannelTypeSpecial : List (String × String) := %s", digLeanStrPairs(poSpecial))
+	l.p("def parseOrderChannelTypeDefault : List String := %s", leanStrList(poCtDefault))
+	l.p("def supplyToSatoshis : List String := %s", leanStrList(digFuncBodyStrings(toSat)))
+	l.p("def supplyFromSats : List String := %s", leanStrList(digFuncBodyStrings(fromSat)))
+		l.p("def digestBTCOutboundLiquidity : Nat := %s", intConst(ce, "order", "BTCOutboundLiquidity"))
+l.p("def digestBaseSupplyUnit : Nat := %s", intConst(ce, "order", "BaseSupplyUnit"))
 	for _, n := range []string{"VersionDefault", "VersionNodeTierMinMatch", "VersionLeaseDurationBuckets",
 		"VersionSelfChanBalance", "VersionSidecarChannel", "VersionChannelType"} {
 
 		l.p("def order%s : Nat := %s", n, intConst(ce, "order", n))
 	}
-	l.p("end Pool.Gen")
+	l.p("end Pool.Gen.C12")
 }
